@@ -899,14 +899,37 @@ def _is_first_batch_test(e):
     return False
 
 
-def _calls_to(func, method):
+def _calls_to(func, method, wrappers=()):
+    """Calls self.<method>(...) in func; `wrappers` are further method names that are
+    known to perform that call on every path."""
     cfg = cfg_of(func)
+    names = {method} | set(wrappers)
     out = []
     for n in walk_no_nested(func.node):
         if isinstance(n, ast.Call) and isinstance(n.func, ast.Attribute) and \
-                n.func.attr == method and isinstance(n.func.value, ast.Name) and \
+                n.func.attr in names and isinstance(n.func.value, ast.Name) and \
                 n.func.value.id == func.self_name and cfg.has(n):
             out.append(n)
+    return out
+
+
+def _wrappers_of(cls, method):
+    """Methods of `cls` every normal path of which (with `self.filepath is not None`
+    assumed) calls self.<method>: a call to such a wrapper is as good as the call itself
+    (one level; wrappers of wrappers are not followed)."""
+    out = set()
+    for name, f in cls.methods.items():
+        if name == method or f.kind not in ('method',) or not f.self_name:
+            continue
+        cfg = cfg_of(f)
+        calls = {cfg.node_of(c).id for c in _calls_to(f, method)}
+        if not calls:
+            continue
+
+        def edge_ok(node, lab):
+            return not (node.kind == 'test' and lab is False and _is_filepath_test(node.expr))
+        if cfg.must_pass(cfg.entry.id, cfg.exit.id, calls, edge_ok=edge_ok):
+            out.add(name)
     return out
 
 
@@ -1016,8 +1039,10 @@ def rule_P4_sampler(ctx, rid='P4', rid6='P6'):
                        'an incremental one)' % (a, f.qualname, 're-written' if ok else
                                                 'NOT re-written'))
     # -- (4) P6: state changes in run() that need a full write
-    full = {cfg.node_of(c).id for c in _calls_to(run, 'write')}
-    incr = {cfg.node_of(c).id for c in _calls_to(run, 'write_shell_update')}
+    w_wrap = _wrappers_of(S, 'write') - {'write_shell_update'}
+    u_wrap = _wrappers_of(S, 'write_shell_update') - {'write'} - w_wrap
+    full = {cfg.node_of(c).id for c in _calls_to(run, 'write', w_wrap)}
+    incr = {cfg.node_of(c).id for c in _calls_to(run, 'write_shell_update', u_wrap)}
     ctx.require(full, 'Sampler.run no longer calls self.write (P6 anchor)')
     ctx.require(incr, 'Sampler.run no longer calls self.write_shell_update (P6 anchor)')
     first_block = set()
